@@ -44,6 +44,10 @@ pub enum Step {
     NestedLoan { amount: Uint128, program: Vec<Step> },
     Fail,
     Noop,
+    /// the borrower itself sends the vault its internal Callback(AfterTrade) message; issued as a
+    /// reply-always sub-message, so a rejection does not fail the transaction and the reply records
+    /// (event attribute `forged_callback`) whether the vault accepted it
+    ForgeCallback { old_balance: Uint128, loan_amount: Uint128 },
 }
 
 #[derive(Serialize, Deserialize, Clone, Debug, PartialEq, JsonSchema)]
@@ -194,6 +198,19 @@ fn b_execute(deps: DepsMut, _env: Env, _info: MessageInfo, msg: BorrowerMsg) -> 
                     }
                     Step::Fail => return Err(StdError::generic_err("borrower fails on purpose")),
                     Step::Noop => {}
+                    Step::ForgeCallback { old_balance, loan_amount } => {
+                        resp = resp.add_submessage(SubMsg::reply_always(
+                            WasmMsg::Execute {
+                                contract_addr: cfg.vault.clone(),
+                                msg: to_json_binary(&vault::ExecuteMsg::Callback(vault::CallbackMsg::AfterTrade {
+                                    old_balance,
+                                    loan_amount,
+                                }))?,
+                                funds: vec![],
+                            },
+                            8,
+                        ));
+                    }
                 }
             }
             Ok(resp)
@@ -201,7 +218,11 @@ fn b_execute(deps: DepsMut, _env: Env, _info: MessageInfo, msg: BorrowerMsg) -> 
     }
 }
 
-fn b_reply(_deps: DepsMut, _env: Env, _msg: Reply) -> StdResult<Response> {
+fn b_reply(_deps: DepsMut, _env: Env, msg: Reply) -> StdResult<Response> {
+    if msg.id == 8 {
+        let verdict = if msg.result.is_ok() { "accepted" } else { "rejected" };
+        return Ok(Response::new().add_attribute("forged_callback", verdict));
+    }
     // swallowed failure of a re-entrant deposit
     Ok(Response::new().add_attribute("swallowed", "true"))
 }
